@@ -129,7 +129,7 @@ var keyTypes = []reflect.Type{reflect.TypeOf(""), reflect.TypeOf(int(0)), reflec
 func (g *Gen) scalar() reflect.Type {
 	r := g.R
 	if !g.Cfg.RefOnly && r.Chance(1, 14) {
-		return reflect.ArrayOf(core.Pick(r, []int{1, 2, 3, 4, 5, 6, 7, 8, 9, 10, 14, 15, 16, 17, 22, 33}), reflect.TypeOf(byte(0)))
+		return reflect.ArrayOf(core.Pick(r, []int{0, 1, 2, 3, 4, 5, 6, 7, 8, 9, 10, 14, 15, 16, 17, 22, 33}), reflect.TypeOf(byte(0)))
 	}
 	if g.Cfg.Custom && !g.Cfg.RefOnly && r.Chance(1, 12) {
 		return core.Pick(r, []reflect.Type{TMsg, TGogo, TGogoV, TRaw})
@@ -315,7 +315,11 @@ func (g *Gen) fieldType(depth int) reflect.Type {
 		return g.scalar()
 	case k < 8: // pointer to scalar or struct
 		if deep && r.Bool() {
-			return reflect.PointerTo(g.Message(depth + 1))
+			p := reflect.PointerTo(g.Message(depth + 1))
+			if !g.Cfg.RefOnly && r.Chance(1, 6) {
+				p = reflect.PointerTo(p) // pointer to pointer to message
+			}
+			return p
 		}
 		t := g.scalar()
 		if t.Kind() == reflect.Slice || t.Kind() == reflect.Array {
@@ -338,10 +342,13 @@ func (g *Gen) fieldType(depth int) reflect.Type {
 			e = g.Message(depth + 1)
 			if r.Bool() {
 				e = reflect.PointerTo(e)
+				if !g.Cfg.RefOnly && r.Chance(1, 8) {
+					e = reflect.PointerTo(e)
+				}
 			}
 		default:
 			e = g.scalar()
-			if e.Kind() == reflect.Array {
+			if e.Kind() == reflect.Array && !(e.Len() == 0 && !g.Cfg.RefOnly) {
 				e = reflect.TypeOf("")
 			}
 		}
@@ -357,6 +364,9 @@ func (g *Gen) fieldType(depth int) reflect.Type {
 			v = g.Message(depth + 1)
 			if r.Bool() {
 				v = reflect.PointerTo(v)
+				if !g.Cfg.RefOnly && r.Chance(1, 8) {
+					v = reflect.PointerTo(v)
+				}
 			}
 		default:
 			v = g.scalar()
@@ -476,15 +486,16 @@ func (f *Filler) Fill(v reflect.Value, depth int) {
 		for i := 0; i < n; i++ {
 			e := s.Index(i)
 			if e.Kind() == reflect.Pointer {
-				p := reflect.New(t.Elem().Elem())
-				f.Fill(p.Elem(), depth+1)
-				e.Set(p)
+				e.Set(f.nonNil(t.Elem(), depth+1))
 			} else {
 				f.Fill(e, depth+1)
 			}
 		}
 		v.Set(s)
 	case reflect.Array:
+		if t.Len() == 0 {
+			return
+		}
 		for i := 0; i < t.Len(); i++ {
 			v.Index(i).SetUint(uint64(r.Intn(256)))
 		}
@@ -529,9 +540,7 @@ func (f *Filler) Fill(v reflect.Value, depth int) {
 			if e.Kind() == reflect.Pointer && !f.NoNilMapValues && r.Chance(1, 5) {
 				// a nil value: the entry carries its key only
 			} else if e.Kind() == reflect.Pointer {
-				p := reflect.New(t.Elem().Elem())
-				f.Fill(p.Elem(), depth+1)
-				e.Set(p)
+				e.Set(f.nonNil(t.Elem(), depth+1))
 			} else {
 				f.Fill(e, depth+1)
 			}
@@ -549,6 +558,18 @@ func (f *Filler) Fill(v reflect.Value, depth int) {
 			f.Fill(v.Field(i), depth+1)
 		}
 	}
+}
+
+// nonNil builds a value of pointer type t that is non-nil at every level (*T, **T): a nil
+// element of a repeated field, or a pointer to a nil pointer, has no representation.
+func (f *Filler) nonNil(t reflect.Type, depth int) reflect.Value {
+	p := reflect.New(t.Elem())
+	if t.Elem().Kind() == reflect.Pointer {
+		p.Elem().Set(f.nonNil(t.Elem(), depth))
+	} else {
+		f.Fill(p.Elem(), depth)
+	}
+	return p
 }
 
 func (f *Filler) NewValue(t reflect.Type) reflect.Value {
